@@ -22,6 +22,7 @@ type C13Case struct {
 	Delta  float64     `json:"delta"`
 	Join   c2.JoinType `json:"join"`
 	Eps    float64     `json:"eps"`
+	Open   bool        `json:"open,omitempty"` // simplify: open path (end points protected by sentinels)
 	Q      P           `json:"q"`
 	TX     int64       `json:"tx"`
 	TY     int64       `json:"ty"`
@@ -54,6 +55,9 @@ func drawC13(t *rapid.T) *C13Case {
 	if c.Op == "simplify" && rapid.Bool().Draw(t, "zigzag") {
 		// many decisions close to epsilon (the generator of C16)
 		c.Subj = Paths{drawZigZag(t, E, c.Eps, rapid.IntRange(4, 30).Draw(t, "zn"))}
+	}
+	if c.Op == "simplify" {
+		c.Open = rapid.Bool().Draw(t, "simplifyOpen")
 	}
 	c.Q = P{X: rapid.Int64Range(-E, E).Draw(t, "qx"), Y: rapid.Int64Range(-E, E).Draw(t, "qy")}
 	if rapid.Bool().Draw(t, "translate") {
@@ -206,14 +210,14 @@ func judgeC13Inner(c *C13Case, cx *Ctx) *Violation {
 			return nil
 		}
 		p := first(c.Subj)
-		r0 := c2.SimplifyPath64(p, c.Eps, true)
-		r1 := c2.SimplifyPath64(first(subjT), c.Eps*s, true)
+		r0 := c2.SimplifyPath64(p, c.Eps, !c.Open)
+		r1 := c2.SimplifyPath64(first(subjT), c.Eps*s, !c.Open)
 		// (no excuse for large extents here: SimplifyPath64 measures distances in floating
 		// point beyond 2^31 and is not in the domain of the listed overflow finding)
 		if !kit.PathsEqual(Paths{mapPaths(Paths{r0}, c.T)[0]}, Paths{r1}) {
 			return violf("SimplifyPath64 keeps different vertices after scaling by %d and shifting by (%d,%d): %v vs (transformed back) base result %v; path %v eps %v", c.Scale, c.TX, c.TY, r1, r0, p, c.Eps)
 		}
-		cx.St.Eval(c, len(r0) < len(p), labels...)
+		cx.St.Eval(c, len(r0) < len(p), append(labels, boolLabel("simplify-open-path", c.Open))...)
 		return nil
 	}
 
